@@ -343,7 +343,41 @@ def rule_R15(text, fired):
     return text
 
 
+# ---- R19: enumerate loops ------------------------------------------------------------------------
+R19_RX = re.compile(r'\bfor\s*\(\s*(\w+)\s*,\s*(\w+|\([^()]*\))\s*\)\s*in\s+([\w\.]+?)\.iter\(\)\.enumerate\(\)\s*\{')
+
+# `for PAT in &E {` : same rewrite with the index named i_PAT
+R19B_RX = re.compile(r'\bfor\s+(\w+)\s+in\s+&([\w\.]+)\s*\{')
+
+
+def rule_R19(text, fired):
+    """`for (I, PAT) in E.iter().enumerate() { B }` ->
+    `{ let mut I: usize = 0; while I < E.len() { let PAT = ELEM; B I += 1; } }` where ELEM is `&E[I]` for an identifier
+    pattern and `E.entry_at(I)` for a tuple pattern (map entries in iteration order); `for PAT in &E { B }` likewise with the
+    index named i_PAT.  Refuses a body with `continue`
+    (the increment would be skipped).  Trusted: slice::Iter + Enumerate yield (i, &E[i]) for i in 0..E.len()."""
+    while True:
+        m = R19_RX.search(text) or R19B_RX.search(text)
+        if not m:
+            return text
+        ct = rs.code_toks(rs.tokenize(text[m.end() - 1:]))
+        close = m.end() - 1 + ct[rs.match_close(ct, 0)].start
+        body = text[m.end():close]
+        if re.search(r'\bcontinue\b', body):
+            raise Refuse('R19: continue inside an enumerate loop')
+        if m.re is R19_RX:
+            i, pat, e = m.group(1), m.group(2), m.group(3)
+        else:
+            pat, e = m.group(1), m.group(2)
+            i = 'i_' + pat
+        elem = f'{e}.entry_at({i})' if pat.startswith('(') else f'&{e}[{i}]'
+        rep = (f'{{ let mut {i}: usize = 0; while {i} < {e}.len() {{ let {pat} = {elem};{body} {i} += 1; }} }}')
+        text = text[:m.start()] + rep + text[close + 1:]
+        _count(fired, 'R19')
+
+
 RULES = {
+    'R19': rule_R19,
     'R18': rule_R18,
     'R10': rule_R10,
     'R6b': rule_R6b,
@@ -357,7 +391,7 @@ RULES = {
     'R9': rule_R9,
     'R13': rule_R13,
 }
-ORDER = ['R10', 'R2', 'R9', 'R6b', 'R6', 'R7', 'R13', 'R14', 'R15', 'R16', 'R18', 'R5']
+ORDER = ['R19', 'R10', 'R2', 'R9', 'R6b', 'R6', 'R7', 'R13', 'R14', 'R15', 'R16', 'R18', 'R5']
 
 
 def apply_rules(text, active, fired, extra_subs=()):
